@@ -92,7 +92,23 @@ class Conv(Relation):
             out.append({"ns": ns, "npop": npop, "hap": hap, "c": c, "tab": tab, "hu": hu,
                         "norep": bool(rng.random() < 0.6), "seed": int(rng.integers(0, 2**31)),
                         "kind": "malformed" if malformed else "wellformed"})
+        # width-boundary stream: a reference haplotype that already holds more than 255 registered intervals
+        out += [self.many_registered(rng) for _ in range(1 if tier == "quick" else 4)]
         return out
+
+    def many_registered(self, rng):
+        """two reference samples; haplotype 0 holds 254..300 disjoint registrations [10i, 10i+5] of the converted chromosome
+        in random order; the simulated haplotype's blocks end inside / between the registrations number 254..257"""
+        m = int(rng.choice([254, 255, 256, 257, int(rng.integers(258, 301))]))
+        c = int(rng.choice([1, 2, 23]))
+        order = [int(x) for x in rng.permutation(m)]
+        hu = [[[c, 10 * i, 10 * i + 5] for i in order], [], [], []]
+        ends = sorted(set(10 * order[j] + int(rng.choice([-1, 2, 5, 7])) for j in (253, 254, 255, 256, m - 1) if j < m))
+        ends = [e for e in ends if e > 0][:int(rng.integers(1, 5))] + [GRID[-1]]
+        hap = [[1, c, e, 0] for e in ends]
+        tab = [[1, [int(x) for x in rng.permutation(2)][:int(rng.integers(1, 3))]]]
+        return {"ns": 2, "npop": 2, "hap": hap, "c": c, "tab": tab, "hu": hu, "norep": True,
+                "seed": int(rng.integers(0, 2**31)), "kind": "many-registered"}
 
     def run_impl(self, inp):
         from haptools.admix_storage import HaplotypeSegment as S
@@ -162,6 +178,15 @@ class Conv(Relation):
             out.append("ok" if "ok" in obs["res"] else f"err{obs['res']['err']}")
         if inp["c"] == 23:
             out.append("chrom-X")
+        if max([len(u) for u in inp["hu"]] + [0]) > 255:
+            out.append("more-than-255-intervals-on-a-reference-haplotype")
+        # overlapping populations: a reference sample in the lists of two labels
+        seen = {}
+        for k, smp in inp["tab"]:
+            for x in smp:
+                seen.setdefault(x, set()).add(k)
+        if any(len(v) > 1 for x, v in seen.items() if x >= 0):
+            out.append("sample-under-several-populations")
         return out
 
     def shrink(self, inp):
